@@ -751,3 +751,7 @@ def check(run, replay=None):
     run.require_counter("negmask_accepted", 50)
     run.extra["pending_subchecks"] = {k: ("on" if os.environ.get(k) else "off (fails on the repaired tree, awaiting decision): ") + v
                                       for k, v in PENDING.items()}
+
+
+# workloads added in seeding rounds 7-10 (DESIGN.md sections 13.9-13.12)
+LEVEL_TEXT = LEVEL_TEXT + ' Later additions: uint16 images with cuts that are not whole numbers.'
